@@ -265,6 +265,8 @@ package terminal
 //@   ensures  [total] (n == nil) != (err == nil) && len(data.ElemsOf(cp)) == 0
 //@   ensures  [node] n != nil ==> n.Pos() == pos && n.ReaderPos() >= pos + 2
 //@   ensures  [fail] err != nil ==> err.Pos() >= pos
+//@   let tr = ctx.Reader().(*text.Reader)
+//@   ensures  [delimited;C08] n != nil ==> (text.DataOf(tr)[text.CurOf(tr, pos)] == '"' || (allowBackquote && text.DataOf(tr)[text.CurOf(tr, pos)] == '`')) && text.DataOf(tr)[text.CurOf(tr, n.ReaderPos())-1] == text.DataOf(tr)[text.CurOf(tr, pos)]
 //@   ghost_return when err != nil && err.Pos() > parsley.GhostMaxFail :: parsley.GhostMaxFail = err.Pos()
 
 //@ -- ------------------------------------------------------------------ SetReaderPos of the literal nodes
